@@ -4,6 +4,8 @@ import (
 	"crypto/x509"
 	"time"
 
+	"github.com/google/gce-tcb-verifier/cmd/output"
+
 	"github.com/google/gce-tcb-verifier/rotate"
 	sops "github.com/google/gce-tcb-verifier/sign/ops"
 	styp "github.com/google/gce-tcb-verifier/sign/types"
@@ -94,3 +96,51 @@ func VerifC12GcsProd2()    { verifC12(true, false, 2) }
 func VerifC12MemNonprod1() { verifC12(false, true, 1) }
 func VerifC12MemNonprod2() { verifC12(false, true, 2) }
 func VerifC12GcsNonprod1() { verifC12(true, true, 1) }
+
+// No existing certificate object changes without overwrite permission: the storage-backed
+// authority's single write gate, with the flags and the object's prior existence symbolic.
+func VerifC12WriteGate() {
+	f := verifNewFixture(true, false)
+	ca := f.newCA().(*CertificateAuthority)
+	overwrite, keepGoing := verifNondetBool("overwrite"), verifNondetBool("keep_going")
+	ctx := output.NewContext(f.ctx(ca, false), &output.Options{Overwrite: overwrite, KeepGoing: keepGoing})
+	existed := verifNondetBool("object_exists")
+	old := []byte{0x0D}
+	if existed {
+		f.storage.put("certs/x.crt", old)
+	}
+	data := []byte{0x4E, 0x57}
+	ex, err := ca.writeIfAllowed(ctx, "certs/x.crt", data)
+	i := f.storage.find("certs/x.crt")
+	if existed && !overwrite {
+		verifReach("protected")
+		verifAssert(i >= 0 && verifSameSlice(f.storage.objects[i].data, old), "an existing object is not rewritten without overwrite permission")
+		verifAssert(ex, "the caller is told the object existed")
+		verifAssert(keepGoing || err != nil, "without keep-going the attempt is an error")
+	} else {
+		verifAssert(err == nil && i >= 0 && len(f.storage.objects[i].data) == 2, "a new object, or an existing one with overwrite permission, is written")
+	}
+	verifReach("end")
+}
+
+// The same through a whole rotation whose certificate object name collides with an existing
+// object (serial override equal to the current serial).
+func VerifC12RotateNoClobber() {
+	f := verifNewFixture(true, false)
+	verifAssume(f.bootstrap() == nil, "fault-free bootstrap succeeds")
+	ca := f.newCA()
+	first, _ := ca.PrimarySigningKeyVersion(f.ctx(ca, false))
+	path, _ := ca.(*CertificateAuthority).certPath(f.ctx(ca, false), first)
+	i := f.storage.find(path)
+	verifAssert(i >= 0, "the first signing certificate is stored")
+	before := f.storage.objects[i].data
+	keepGoing := verifNondetBool("keep_going")
+	ctx := output.NewContext(f.ctx(ca, false), &output.Options{KeepGoing: keepGoing})
+	// serial override 1 = the existing certificate's serial: same common name, same object name
+	ctx = rotate.NewSigningKeyContext(ctx, &rotate.SigningKeyContext{SigningKeyCommonName: "sign-cn", SigningKeySerial: bigOne(), Now: time.Unix(int64(verifNondetU32("t")), 0)})
+	_, err := rotate.Key(ctx)
+	verifObserve("ok", err == nil)
+	j := f.storage.find(path)
+	verifAssert(j >= 0 && verifSameSlice(f.storage.objects[j].data, before), "a rotation without overwrite permission leaves the existing certificate object unchanged")
+	verifReach("end")
+}
